@@ -325,8 +325,8 @@ func mkBoldyreva[
 	)
 	type keyMat struct {
 		shards    map[proto.ID]*boldyreva02.Shard[PK, PKFE, SG, SGFE, E, S] // as decoded from their CBOR encoding
-		pmOutside pmT                                                      // what an outside aggregator receives (decoded)
-		sk        *big.Int                                                 // reconstructed by ref/linalg from ALL dealt shares
+		pmOutside pmT                                                       // what an outside aggregator receives (decoded)
+		sk        *big.Int                                                  // reconstructed by ref/linalg from ALL dealt shares
 		pk        PK
 		err       error
 	}
